@@ -3,6 +3,7 @@ package main
 import (
 	"fmt"
 	"go/constant"
+	"go/token"
 	"math/big"
 	"sort"
 	"strings"
@@ -85,8 +86,17 @@ func Call(fn string, args ...*Term) *Term {
 			return args[0]
 		}
 	}
+	if len(args) == 2 && strings.HasPrefix(fn, "op") {
+		if tok, ok := intOpTokens[fn]; ok {
+			if f, ok := foldIntOp(tok, args[0], args[1]); ok {
+				return f
+			}
+		}
+	}
 	return capTerm(&Term{Op: "call", S: fn, Args: args})
 }
+
+var intOpTokens = map[string]token.Token{"op&": token.AND, "op|": token.OR, "op^": token.XOR, "op&^": token.AND_NOT, "op<<": token.SHL, "op>>": token.SHR, "op%": token.REM}
 func Conv(ty string, a *Term) *Term {
 	if a.Op == "c" && (ty == "float64" || ty == "int" || ty == "uint" || ty == "uint32") {
 		return a
